@@ -187,7 +187,9 @@ pub fn analyse(spec: &Spec, extra_boundaries: &[u8], fallback_prios: Option<&[us
                 }
                 Some(2 * st)
             } else {
-                None
+                // byte patterns with literal bytes >= 0x80: a literal run that is valid UTF-8 counts
+                // its characters, any other run counts its bytes (no semantic cross-check here)
+                Some(2 * structural_min_units(&hirs[i]))
             }
         };
         expected.push(e);
